@@ -112,6 +112,9 @@ def setCfg (c : Cfg) (kv : String) : Cfg :=
     | "maxActive" => { c with maxActive := n }
     | "allTypes" => { c with allTypes := i }
     | "bufMax" => { c with bufMax := i }
+    | "pTiming" => { c with pTiming := n }
+    | "pTraffic" => { c with pTraffic := n }
+    | "pInfo" => { c with pInfo := n }
     | "mmPid" => { c with mmPid := i }
     | "szInfo" => { c with szInfo := n }
     | "szFailed" => { c with szFailed := n }
@@ -158,14 +161,12 @@ def addToLast (a : Array Round) (f : Round → Round) : Array Round :=
 def addObs (a : Array (Array Ev)) (e : Ev) : Array (Array Ev) :=
   if a.size == 0 then #[#[e]] else a.modify (a.size - 1) (·.push e)
 
-/-- model events per round: the model's log is cumulative (`State.out` only grows, and nothing in the model ever reads
-    it), the events of a round are what the round appended (`Props/C19.lean: modelRun_obs` identifies this list with the
-    one the refinement theorem is about) -/
+/-- model events per round -/
 def modelRun (cfg : Cfg) (rounds : List Round) : List (List Ev) × State :=
   let s0 := init cfg
   let (acc, s) := rounds.foldl (fun (p : List (List Ev) × State) r =>
-      let s' := step cfg p.2 r
-      (p.1 ++ [s'.out.drop p.2.out.length], s')) ([s0.out], s0)
+      let s' := step cfg { p.2 with out := [] } r
+      (p.1 ++ [s'.out], s')) ([s0.out], s0)
   (acc, s)
 
 /-- per-property projections of the event stream: the tie of property `P` is the agreement of model and
